@@ -12,5 +12,6 @@ func genExtra(repo string) map[string]string {
 		"Gen_blamka.v":     genBlamka(repo),
 		"Gen_index.v":      genIndex(repo),
 		"Gen_sched.v":      genSched(repo),
+		"Gen_des_round.v":  genDes(repo),
 	}
 }
